@@ -295,37 +295,24 @@ def build_registry(case: dict, calls: list, script: dict | None) -> Any:
     reg = kopf.OperatorRegistry()
     fns: dict[int, Any] = {}
 
-    def make_fn(decl: dict) -> Any:
-        hid = decl['id']
-
+    def body_of(full: str, decl: dict) -> Any:
+        """What a scripted function does: log, raise per script, else declare its sub-handlers (which may nest) and return."""
         async def fn(retry: int, **_: Any) -> Any:
-            calls.append((hid, retry))
-            act = (script or {}).get(hid, {}).get(retry, ['ok', None])
+            calls.append((full, retry))
+            act = (script or {}).get(full, {}).get(retry, ['ok', None])
             if act[0] == 'temp':
                 raise kopf.TemporaryError(act[2], delay=act[1] / 1e6)
             if act[0] == 'perm':
                 raise kopf.PermanentError(act[1])
             for sub in decl.get('subs', []):
-                kopf.subhandler(id=sub['id'], when=(lambda m: (lambda **_: m))(sub['match']))(make_sub(hid, sub))
+                kopf.subhandler(id=sub['id'], when=(lambda m: (lambda **_: m))(sub['match']))(body_of(f"{full}/{sub['id']}", sub))
             tok = act[1]
             return None if tok is None else (tok if tok % 2 == 0 else {'v': tok})
-        fn.__name__ = f'fn_{hid}'
+        fn.__name__ = 'fn_' + full.replace('/', '_')
         return fn
 
-    def make_sub(parent: str, sub: dict) -> Any:
-        sid = f"{parent}/{sub['id']}"
-
-        async def subfn(retry: int, **_: Any) -> Any:
-            calls.append((sid, retry))
-            act = (script or {}).get(sid, {}).get(retry, ['ok', None])
-            if act[0] == 'temp':
-                raise kopf.TemporaryError(act[2], delay=act[1] / 1e6)
-            if act[0] == 'perm':
-                raise kopf.PermanentError(act[1])
-            tok = act[1]
-            return None if tok is None else (tok if tok % 2 == 0 else {'v': tok})
-        subfn.__name__ = f"sub_{sub['id']}"
-        return subfn
+    def make_fn(decl: dict) -> Any:
+        return body_of(decl['id'], decl)
 
     for decl in case['handlers']:
         fn = fns.setdefault(decl['fn'], make_fn(decl))
@@ -429,6 +416,25 @@ def parse_log(lines: list[str]) -> tuple[list, Any]:
     return extras, processed
 
 
+def tree_nodes(case: dict) -> dict[str, dict]:
+    """full id -> declaration, for every handler and sub-handler of every depth (first declaration of an id wins)."""
+    out: dict[str, dict] = {}
+
+    def walk(full: str, decl: dict) -> None:
+        if full in out:
+            return
+        out[full] = decl
+        for sub in decl.get('subs', []):
+            walk(f"{full}/{sub['id']}", sub)
+    for decl in case['handlers']:
+        walk(decl['id'], decl)
+    return out
+
+
+def kids_of(full: str, decl: dict, selected_only: bool) -> list[str]:
+    return [f"{full}/{x['id']}" for x in decl.get('subs', []) if x['match'] or not selected_only]
+
+
 def universe_of(case: dict, obs: dict) -> list[str]:
     u: list[str] = []
 
@@ -447,9 +453,8 @@ def universe_of(case: dict, obs: dict) -> list[str]:
                 add(s)
     for s in case['default_outcome'].get('subrefs', []) if 'default_outcome' in case else []:
         add(s)
-    for decl in case['handlers']:
-        for sub in decl.get('subs', []):
-            add(f"{decl['id']}/{sub['id']}")
+    for full in tree_nodes(case):
+        add(full)
     return u
 
 
@@ -509,17 +514,11 @@ def c_oracle(case: dict, stub: bool) -> str:
     return f"(pg_table_oracle {cq.clist(rows)} {c_out(leaf_outcome(['ok', None]))})"
 
 
-def c_family(case: dict) -> str:
-    rows = []
-    seen = set()
-    for decl in case['handlers']:
-        if decl.get('subs') and decl['id'] not in seen:
-            seen.add(decl['id'])
-            owned = [f"{decl['id']}/{s['id']}" for s in decl['subs']]
-            sel = [f"{decl['id']}/{s['id']}" for s in decl['subs'] if s['match']]
-            # the parent's own returned token: by retries; the script says which
-            rows.append((decl['id'], owned, sel))
-    return rows  # type: ignore[return-value]
+def c_family(case: dict) -> list:
+    return [(full, kids_of(full, decl, False), kids_of(full, decl, True)) for full, decl in tree_nodes(case).items() if decl.get('subs')]
+
+
+DEPTH_FUEL = 5      # deeper than any generated nesting
 
 
 def pipeline_term(case: dict, obs: dict, stub: bool) -> tuple[str, str]:
@@ -537,7 +536,7 @@ def pipeline_term(case: dict, obs: dict, stub: bool) -> tuple[str, str]:
             if act[0] != 'ok':
                 continue     # the parent's own code raised: its sub-handlers are never declared/executed
             fam_rows.append(f'({cq.cstr(hid)}, ({coz(act[1])}, {cids(owned)}, {cids(sel)}))')
-        orc = (f"(pg_children_oracle {body} {reason} {lc} {cq.cZ(case['now'])} (pg_table_family {cq.clist(fam_rows)}) "
+        orc = (f"(pg_deep_oracle {cq.cnat(DEPTH_FUEL)} {body} {reason} {lc} {cq.cZ(case['now'])} (pg_table_family {cq.clist(fam_rows)}) "
                f"{c_oracle(case, False)})")
     run = (f"(pg_pipeline {body} {cids(obs['owned'])} {reason} {cids(obs['selected'])} {lc} {cq.cZ(case['now'])} "
            f"{cq.cbool(obs['new_differs'])} {orc})")
@@ -615,6 +614,17 @@ def gen_outcome(r: random.Random, pool: list[str]) -> dict:
     return o
 
 
+def gen_subs(r: random.Random, depth: int) -> list[dict]:
+    """Sub-handler declarations, nested up to `depth` more levels (parent -> child -> leaf_*)."""
+    out = []
+    for j in range(r.randrange(1, 4)):
+        d: dict[str, Any] = {'id': f's{j}', 'match': r.random() < 0.88}
+        if depth > 0 and r.random() < 0.45:
+            d['subs'] = gen_subs(r, depth - 1)
+        out.append(d)
+    return out
+
+
 def gen_handlers(r: random.Random, reason: str, with_subs: bool) -> list[dict]:
     n = r.randrange(0, 5) if r.random() < 0.9 else 0
     ids = r.sample(IDS, k=min(n, len(IDS)))
@@ -626,7 +636,7 @@ def gen_handlers(r: random.Random, reason: str, with_subs: bool) -> list[dict]:
         if on == 'resume' and r.random() < 0.3:
             d['deleted'] = True
         if with_subs and r.random() < 0.5:
-            d['subs'] = [{'id': f's{j}', 'match': r.random() < 0.85} for j in range(r.randrange(1, 4))]
+            d['subs'] = gen_subs(r, r.choice([0, 1, 1, 2]))
         hs.append(d)
         fn += 1
         x = r.random()
@@ -653,8 +663,7 @@ def gen_case(r: random.Random, stub: bool) -> dict:
     for d in case['handlers']:
         if d['id'] not in hids:
             hids.append(d['id'])
-    subids = [f"{d['id']}/{s['id']}" for d in case['handlers'] for s in d.get('subs', [])]
-    subids = list(dict.fromkeys(subids))
+    subids = [x for x in tree_nodes(case) if '/' in x]
     pool = (subids or []) + ['a/s1', 'b/s1', 'z', 'q/w'] if stub else (subids or ['z'])
     pool = list(dict.fromkeys(pool))
     recs: dict[str, dict] = {}
@@ -715,20 +724,25 @@ def final_of(case: dict, obs: dict, stub: bool, hid: str, n: int) -> bool | None
         return False
     if act[0] == 'perm':
         return True
-    kids = [f"{hid}/{s['id']}" for d in case['handlers'] if d['id'] == hid for s in d.get('subs', []) if s['match']]
-    kids = list(dict.fromkeys(kids))
-    if not kids:
-        return True
-    # a parent finishes exactly when every selected sub-handler has finished
-    for kid in kids:
+    decl = tree_nodes(case).get(hid) or {}
+    # a parent finishes exactly when every selected sub-handler has finished (at every depth)
+    for kid in kids_of(hid, decl, True):
         if rec_finished(obs['body_records'].get(kid)):
             continue
         ns = [m for h, m in obs['calls'] if h == kid]
-        if not ns:
+        if not ns or not final_of(case, obs, stub, kid, ns[-1]):
             return False
-        kact = case.get('script', {}).get(kid, {}).get(ns[-1], ['ok', None])
-        if kact[0] == 'temp':
-            return False
+    return True
+
+
+def view_refs_closed(case: dict, obs: dict) -> bool:
+    """Every sub-handler record on the object is referenced by the record of its top-level ancestor (what kopf maintains)."""
+    recs = obs['body_records']
+    for k in recs:
+        if '/' in k:
+            top = k.split('/', 1)[0]
+            if k not in ((recs.get(top) or {}).get('subrefs') or []):
+                return False
     return True
 
 
@@ -788,6 +802,10 @@ def monitor_step(ctx: fw.Ctx, case: dict, obs: dict, stub: bool) -> None:
             # references: recorded before + reported now
             refs = list((before.get(k) or {}).get('subrefs') or [])
             left += [s for s in refs if obs['after'].get(s) is not None]
+        if 'history_step' in case or view_refs_closed(case, obs):     # a view kopf produced itself, or one in that form
+            # in property terms: no record of an owned handler or of any of its sub-handlers of any depth remains
+            left += [u for u in obs['universe'] if obs['after'].get(u) is not None
+                     and any(u == k or u.startswith(k + '/') for k in obs['owned'])]
         if left:
             ctx.fail('the cycle was closed but progress records remain on the object', data, observed=sorted(set(left)),
                      sig='closed-with-records')
@@ -809,18 +827,41 @@ def monitor_step(ctx: fw.Ctx, case: dict, obs: dict, stub: bool) -> None:
     for k, a in zip(obs['universe'], obs['actions']):
         if isinstance(a, dict) and before.get(k) == a:
             ctx.fail('an unchanged progress record was written again', data, observed={k: a}, sig='rewrite-unchanged')
-    # children keep the parent open (only where the real execute_handler_once / subhandling.execute ran)
-    for k in ([] if stub else [x for x in obs['selected'] if any(c[0] == x for c in calls)]):
+    # children keep the parent open (only where the real execute_handler_once / subhandling.execute ran), at every depth
+    nodes = tree_nodes(case)
+    for k, n in ([] if stub else calls):
         a = obs['after'].get(k)
         if a is not None and a.get('success'):
-            live = {f"{d['id']}/{x['id']}" for d in case['handlers'] if d['id'] == k for x in d.get('subs', []) if x['match']}
-            for s in a.get('subrefs') or []:
-                if s not in live:
-                    continue        # a sub-handler that is not selected for this cause does not hold the parent
+            for s in kids_of(k, nodes.get(k) or {}, True):
                 sa = obs['after'].get(s)
                 if sa is not None and not rec_finished(sa):
-                    ctx.fail('a parent handler is recorded as succeeded while a sub-handler it references is unfinished', data,
+                    ctx.fail('a parent handler is recorded as succeeded while a selected sub-handler of it is unfinished', data,
                              observed={k: a, s: sa}, sig='parent-finished-before-children')
+    # a handler still due is invoked: per level, all due ones (all_at_once / shuffled) or exactly one of them
+    def due_of(ids: list[str]) -> list[str]:
+        out = []
+        for x in ids:
+            m = before.get(x)
+            if rec_finished(m):
+                continue
+            if m and m.get('delayed') is not None and m['delayed'] > case['now']:
+                continue
+            out.append(x)
+        return out
+    levels: list[tuple[str, list[str]]] = [('', list(dict.fromkeys(obs['selected'])))]
+    if not stub:
+        for k, n in calls:
+            decl = nodes.get(k) or {}
+            act = case.get('script', {}).get(k, {}).get(n, ['ok', None])
+            if decl.get('subs') and act[0] == 'ok':
+                levels.append((k, kids_of(k, decl, True)))
+    for parent, ids in levels:
+        due = due_of(ids)
+        got = [x for x in due if any(c[0] == x for c in calls)]
+        want_all = case['lifecycle'] in ('all_at_once', 'shuffled')
+        if (want_all and len(got) != len(due)) or (not want_all and due and len(got) != 1):
+            ctx.fail('a handler that is due (unfinished, not delayed) at this level was not invoked as its lifecycle demands', data,
+                     observed={'level': parent or '(top)', 'due': due, 'invoked': got, 'lifecycle': case['lifecycle']}, sig='due-not-invoked')
 
 
 def match_f0201(f: dict) -> bool:
@@ -1066,6 +1107,9 @@ def judge(ctx: fw.Ctx, case: dict, obs: dict, stub: bool, cases: list[fw.Case], 
               'closed' if obs['fho'] else 'open')
     ctx.count('pipeline_supersession', 'extras' if obs['extras'] else 'none')
     ctx.count('pipeline_invocations', str(min(len(obs['calls']), 4)))
+    if not stub:
+        ctx.count('invocation_depth', str(max([c[0].count('/') for c in obs['calls']] + [0]) if obs['calls'] else 'none'))
+        ctx.count('declared_nesting', str(max([x.count('/') for x in tree_nodes(case)] + [0])))
     if nontrivial(case, obs):
         ctx.nontriv(['fn', stub, case])
     ctx.sample({'function_level': {'reason': obs['reason'], 'selected': obs['selected'], 'records': obs['body_records'],
@@ -1084,11 +1128,16 @@ def gen_history(r: random.Random) -> dict:
         on = r.choice(['create', 'update', 'update', 'resume', 'resume', 'delete'])
         d: dict[str, Any] = {'id': hid, 'on': on, 'match': r.random() < 0.9, 'fn': fn}
         if r.random() < 0.6:
-            d['subs'] = [{'id': f's{j}', 'match': r.random() < 0.9} for j in range(r.randrange(1, 4))]
+            d['subs'] = gen_subs(r, r.choice([0, 1, 2, 2]))
         hs.append(d)
-        if r.random() < 0.25:
+        x = r.random()
+        if x < 0.3:         # one function for creation, updates and resuming: several cycles on the same object run it
+            for other in ('create', 'update', 'resume'):
+                if other != on:
+                    hs.append({**d, 'on': other})
+        elif x < 0.45:
             hs.append({**d, 'on': r.choice([q for q in REASONS if q != on])})
-    allids = [d['id'] for d in hs] + [f"{d['id']}/{x['id']}" for d in hs for x in d.get('subs', [])]
+    allids = list(tree_nodes({'handlers': hs}))
     script: dict[str, dict] = {}
     for hid in dict.fromkeys(allids):
         tbl = {}
@@ -1098,7 +1147,7 @@ def gen_history(r: random.Random) -> dict:
                 ['temp', r.choice([0, Q, 8 * Q]), r.choice(MSGS)] if k < 9 else ['perm', r.choice(MSGS)]
         script[hid] = tbl
     steps = []
-    for _ in range(r.randrange(3, 9)):
+    for _ in range(r.randrange(4, 15)):
         k = r.randrange(20)
         ev = 'none' if k < 9 else 'spec' if k < 13 else 'toggle' if k < 16 else 'restart' if k < 18 else 'delete' if k < 19 else 'early'
         steps.append({'event': ev, 'which': r.randrange(0, 8)})
@@ -1143,7 +1192,7 @@ def run_history(ctx: fw.Ctx, hist: dict, cases: list[fw.Case]) -> None:
         except Exception as e:
             ctx.fail('the processing step raised', {'layer': 'function-history', 'history': hist, 'step': si}, observed=repr(e), sig='step-raised')
             return
-        judge(ctx, {**case, 'history': {k: hist[k] for k in ('start', 'steps')}}, obs, False, cases, replay_restart=False)
+        judge(ctx, {**case, 'history': hist}, obs, False, cases, replay_restart=False)
         # ids whose record was dropped in this step (whether matched by a known finding or not) explain a later re-run
         for k, m0 in obs['body_records'].items():
             if obs['after'].get(k) is None and not obs['fho']:
@@ -1240,9 +1289,12 @@ def replay(ctx: fw.Ctx, body: dict) -> bool:
         for key in ('oracle', 'script'):
             if key in case:
                 case[key] = int_keys(case[key])
-        if 'history' in case:
-            return False if 'records' not in case else bool(ctx.failures)   # a step of a history: replay the whole history instead
-        one_case(ctx, case, bool(c.get('stub')), sink)
+        if 'history' in case:               # a step of a function-level history: replay the whole history
+            hist = case['history']
+            hist['script'] = int_keys(hist['script'])
+            run_history(ctx, hist, sink)
+        else:
+            one_case(ctx, case, bool(c.get('stub')), sink)
     else:
         return False
     return bool(ctx.failures)
